@@ -220,3 +220,9 @@ Qed.
 
 Lemma lz64_range z : 0 <= z < 2 ^ 64 -> 0 <= lz64 z <= 64.
 Proof. intros H. unfold lz64. pose proof (bitlen_nonneg z). pose proof (bitlen_le z 64 ltac:(lia) H). lia. Qed.
+
+(** a bitmap: every word in the range of uint64 *)
+Definition words (bm : list Z) : Prop := Forall (fun w => 0 <= w < 2 ^ 64) bm.
+
+Lemma word_of bm k w : words bm -> nthZ bm k = Some w -> 0 <= w < 2 ^ 64.
+Proof. intros Hb E. exact (nthZ_Forall _ _ _ _ Hb E). Qed.
